@@ -399,7 +399,8 @@ def mk_sens_slope(x):
     d = np.ones(nd)
     for i in range(n - 1):
         for j in range(i + 1, n):
-            d[ix] = (x[j] - x[i]) / (j - i)
+            # float difference: narrow integers overflow in x[j] - x[i] when interpreted
+            d[ix] = (float(x[j]) - float(x[i])) / (j - i)
             ix += 1
 
     slope = np.nanmedian(d)
@@ -531,10 +532,11 @@ def mean_grp(xx, groups, num_groups, nodata, yy):
         for pixv in pix:
             if pixv == nodata:
                 continue
+            # float accumulator: narrow integers overflow in the sum when interpreted
             if n == 0:
-                avg = pixv
+                avg = float(pixv)
             else:
-                avg += pixv
+                avg += float(pixv)
             n += 1
         if n == 0:
             avg = nodata
